@@ -134,7 +134,21 @@ func TestC16Gate(t *testing.T) {
 				var classes []class
 				stranger := chainkit.NamedUser("c16-stranger")
 				if name == "neofs" || name == "processing" {
-					w := newMainWorldOn(c, false)
+					// on the 3-key chain the NeoFS contract runs without Notary and stores four Alphabet keys of its own (kept
+					// up to date by alphabetUpdate votes): they collect votes, they do not gate the update - the role does
+					var sk []*keys.PrivateKey
+					var stored [][]byte
+					for i := 0; i < 4; i++ {
+						k := chainkit.DetKey(fmt.Sprintf("c16-stored-%d", i))
+						sk = append(sk, k)
+						stored = append(stored, k.PublicKey().Bytes())
+					}
+					var w *mainWorld
+					if n == 3 {
+						w = newMainWorldStored(c, false, true, stored)
+					} else {
+						w = newMainWorldOn(c, false)
+					}
 					target = w.neofs
 					if name == "processing" {
 						target = w.proc
@@ -153,8 +167,13 @@ func TestC16Gate(t *testing.T) {
 						{"the chain committee majority", []neotest.Signer{c.Committee}, false},
 						{"one key of the NeoFSAlphabet role", []neotest.Signer{neotest.NewSingleSigner(walletOf(rk[0]))}, false},
 						{"2-of-4 multisignature of the role keys", []neotest.Signer{chainkit.Multisig(2, rk)}, false},
-						{"majority (3-of-4) of the NeoFSAlphabet role", []neotest.Signer{chainkit.Multisig(3, rk)}, true},
 					}
+					if n == 3 {
+						classes = append(classes, class{"majority (3-of-4) of the Alphabet keys stored in the NeoFS contract (Notary disabled), which are not the role", []neotest.Signer{chainkit.Multisig(3, sk)}, false},
+							class{"all four stored Alphabet keys", []neotest.Signer{chainkit.Multisig(4, sk)}, false})
+					}
+					classes = append(classes, class{"majority (3-of-4) of the NeoFSAlphabet role", []neotest.Signer{chainkit.Multisig(3, rk)}, true})
+					_ = sk
 				} else {
 					fs := chainkit.NewFS(c, chainkit.FSOptions{Contracts: []string{"netmap", "balance", "neofsid", "container", "proxy", "audit", "reputation", "alphabet"},
 						NetmapConfig: []any{"ContainerFee", int64(0), "ContainerAliasFee", int64(0)}})
